@@ -18,14 +18,13 @@ not complete the result may use uncoupled pairs. -/
 def WF.manyOnSparse (w : WF) : Bool := w.cfg.m.hasMany && !w.cfg.m.allToAll
 
 /-- Finding F-width: workflows without ApplyPlacement on the path (unitary / state / state-system
-synthesis; level 4 with a one-qudit circuit, where the whole SeqPAM stage is skipped) return a
-circuit of the input's width on a wider machine. -/
-def WF.unplacedOnWider (w : WF) : Bool :=
-  w.cfg.wider && (w.cfg.kind != .circuit || (w.cfg.level == 4 && w.cfg.width == 1))
+synthesis) return a circuit of the input's width on a wider machine.  (The one-qudit circuit at
+level 4, where the whole SeqPAM stage is skipped, was fixed in /repo by ded687c.) -/
+def WF.unplacedOnWider (w : WF) : Bool := w.cfg.wider && w.cfg.kind != .circuit
 
-/-- Configurations for which C02's full postcondition is claimed. -/
-def WF.c02Scope (w : WF) : Bool :=
-  (w.isCircuit || w.isUnitary) && !w.manyOnSparse && !w.unplacedOnWider
+/-- Configurations for which C02's full postcondition is claimed: every input kind (state and
+state-system workflows since the /repo fix 5e098c4), outside the two remaining defect classes. -/
+def WF.c02Scope (w : WF) : Bool := !w.manyOnSparse && !w.unplacedOnWider
 
 def c02Check (w : WF) : Bool := !w.c02Scope || executable w.final
 
@@ -37,9 +36,36 @@ def structural (a : AState) : Bool :=
 def c01Check (w : WF) : Bool := !w.isCircuit || semOK w.final
 def c03Check (w : WF) : Bool := w.isCircuit || semOK w.final
 
-/-- Everything the regenerated-tree obligations demand of one workflow. -/
-def noRaise (w : WF) : Bool := !w.final.crash
+/-! Classes of configurations in which a pass of the workflow raises on the code as it is (each
+has a `_witness` theorem and an end-to-end reproducer in the harness).  The two model facts are
+answers of the REAL instantiaters about a circuit of the model's own gates. -/
 
+/-- Finding F-noinst: no instantiater of `instantiater_order` accepts the model's own gates
+(`{CZ, VariableUnitaryGate(1)}`: Minimization refuses VariableUnitaryGates, QFactor refuses CZ). -/
+def WF.noInstantiater (w : WF) : Bool := !w.cfg.m.anyCapable
+
+/-- Finding F-state-min: the state / state-system workflows force `method='minimization'`, which
+`Circuit.instantiate` refuses for a gate set with a VariableUnitaryGate (also the default qutrit
+gate set). -/
+def WF.stateForcedMinimization (w : WF) : Bool := w.isStateLike && !w.cfg.m.minCapable
+
+/-- Finding F-pas-state: at level 4 the state / state-system synthesis is wrapped in
+PermutationAwareSynthesisPass, which multiplies the target by permutation matrices as if it were
+a unitary. -/
+def WF.pasOnState (w : WF) : Bool := w.isStateLike && w.cfg.level == 4
+
+/-- Finding F-state-1q: a one-qudit state (levels >= 2) or state system: when the first layer
+misses the threshold the multi-qudit layer generator is asked to expand a one-qudit circuit. -/
+def WF.oneQuditStateSearch (w : WF) : Bool :=
+  w.isStateLike && w.cfg.width == 1 && !(w.cfg.kind == .state && w.cfg.level == 1)
+
+/-- Configurations for which "no modelled pass raises" is claimed. -/
+def WF.raiseScope (w : WF) : Bool :=
+  !w.noInstantiater && !w.stateForcedMinimization && !w.pasOnState && !w.oneQuditStateSearch
+
+def noRaise (w : WF) : Bool := !w.raiseScope || !w.final.crash
+
+/-- Everything the regenerated-tree obligations demand of one workflow. -/
 def allCheck (w : WF) : Bool :=
   c02Check w && structural w.final && c01Check w && c03Check w && noRaise w
 
